@@ -31,4 +31,42 @@ MUTANTS = [
     _m("C08", "lower-bound-skipped-when-already-positive", "bounds.py",
        "        lower_bound = np.max(game.get_lower_bounds()[sub_coalitions] + game.get_lower_bounds()[complementary_coalitions])\n        game.set_lower_bound(lower_bound, Coalition(coalition))\n\n    for coalition in unknown_sorted:\n        super_coalitions = all_coalitions[coal_structure[coalition] == 2]\n        known_super_coalitions = super_coalitions[game.are_values_known()[super_coalitions]]\n        complementary_coalitions = coalition ^ known_super_coalitions\n        upper_bound = np.min(game.get_lower_bounds()[known_super_coalitions] - game.get_lower_bounds()[complementary_coalitions])\n        game.set_upper_bound(upper_bound, Coalition(coalition))\n\n\ndef compute_bounds_superadditive_monotone",
        "        lower_bound = np.max(game.get_lower_bounds()[sub_coalitions] + game.get_lower_bounds()[complementary_coalitions])\n        if game.get_lower_bound(Coalition(coalition)) <= 0:\n            game.set_lower_bound(lower_bound, Coalition(coalition))\n\n    for coalition in unknown_sorted:\n        super_coalitions = all_coalitions[coal_structure[coalition] == 2]\n        known_super_coalitions = super_coalitions[game.are_values_known()[super_coalitions]]\n        complementary_coalitions = coalition ^ known_super_coalitions\n        upper_bound = np.min(game.get_lower_bounds()[known_super_coalitions] - game.get_lower_bounds()[complementary_coalitions])\n        game.set_upper_bound(upper_bound, Coalition(coalition))\n\n\ndef compute_bounds_superadditive_monotone"),
+    # ------------------------------------------------------------------ C14
+    _m("C14", "table-size-fix-reverted", "regret.py",
+       "self.meta_id_to_rank = np.zeros(int(self.meta_rank_to_id.max()) + 1, dtype=int)",
+       "self.meta_id_to_rank = np.zeros(self.viable_metacoalitions, dtype=int)"),
+    _m("C14", "limit-clamp-fix-reverted", "regret.py",
+       "self.limit_of_revealed = limit_of_revealed = min(limit_of_revealed, self.number_of_coalitions)",
+       "self.limit_of_revealed = limit_of_revealed"),
+    _m("C14", "plus-clipping-removed", "regret.py",
+       "            self.cumulative_regret *= self.cumulative_regret > 0",
+       "            pass"),
+    _m("C14", "iteration-not-saved", "regret.py",
+       '        ret.iteration = params["iteration"]\n', ''),
+    _m("C14", "uniform-fallback-includes-used", "regret.py",
+       "            positive_regret[used_coalitions] = 0\n", ""),
+    _m("C14", "average-fallback-includes-used", "regret.py",
+       "            cumulative_strategy[used_coalitions] = 0\n", ""),
+    _m("C14", "strategy-weight-off-by-one", "regret.py",
+       "weight = self.iteration if self.plus else 1", "weight = (self.iteration - 1) if self.plus else 1"),
+    _m("C14", "regret-saved-as-float16", "regret.py",
+       'np.save(path / "regret.npy", self.cumulative_regret)', 'np.save(path / "regret.npy", self.cumulative_regret.astype(np.float16))'),
+    # ------------------------------------------------------------------ C10
+    _m("C10", "cheerleader-fix-reverted", "generators.py",
+       "cheerleader = int(generator.integers(number_of_players))", "cheerleader = generator.integers(number_of_players)"),
+    _m("C10", "xs-draws-from-module-generator", "generators.py",
+       "singletons = np.array([generator.random() for _ in range(number_of_players)])",
+       "singletons = np.array([_gen.random() for _ in range(number_of_players)])"),
+    _m("C10", "noisy-weights-from-legacy-global", "generators.py",
+       "weights = generator.uniform(high=10, size=(number_of_players,)) if random_weights",
+       "weights = np.random.uniform(high=10, size=(number_of_players,)) if random_weights"),
+    _m("C10", "cycle-uses-global-permutation", "generators.py",
+       "permutation = generator.permutation(number_of_players)", "permutation = np.random.permutation(number_of_players)"),
+    _m("C10", "xos-negation-dropped", "generators.py",
+       "ig.set_values(-osx_values)", "ig.set_values(osx_values)"),
+    _m("C10", "k-budget-positive", "generators.py",
+       "game.set_value(-min(k, len(coalition)), coalition)\n    assert is_sam(game)", "game.set_value(min(k, len(coalition)), coalition)"),
+    _m("C10", "covg-owner-from-last-owner-state", "generators.py",
+       "    set_indices = generator.choice(len(powerset_list), number_of_players)",
+       "    set_indices = generator.choice(len(powerset_list), number_of_players)\n    set_indices[0] = (set_indices[0] + _LAST_OWNER) % len(powerset_list)"),
 ]
